@@ -61,6 +61,28 @@ func (g *Gen) useSpec(sf *specFn) {
 	if rf := rangeFact(sig.Results().At(0).Type(), app); rf != "" {
 		ax = fmt.Sprintf("(and %s %s)", ax, rf)
 	}
+	// proven properties of the specification function (its own contract is verified like any other function's:
+	// recursion = induction hypothesis) are available wherever it is applied
+	if sf.ct != nil && len(sf.ct.Ensures) > 0 {
+		pe := &evalEnv{g: g, a: &Act{g: g}, st: &State{H: map[string]string{}}, bound: map[string]tv{}, pkg: sf.pkg}
+		for k, v := range e.bound {
+			pe.bound[k] = v
+		}
+		rt := sig.Results().At(0).Type()
+		pe.bound["result"] = tv{term: app, typ: rt, spec: isSpecSeqType(rt)}
+		var pres, posts []string
+		for _, cl := range sf.ct.Requires {
+			pres = append(pres, pe.evalBool(cl.Expr))
+		}
+		for _, cl := range sf.ct.Ensures {
+			posts = append(posts, pe.evalBool(cl.Expr))
+		}
+		prop := "(and " + strings.Join(posts, " ") + ")"
+		if len(pres) > 0 {
+			prop = fmt.Sprintf("(=> (and %s) %s)", strings.Join(pres, " "), prop)
+		}
+		ax = fmt.Sprintf("(and %s %s)", ax, prop)
+	}
 	if len(ranges) > 0 {
 		ax = fmt.Sprintf("(=> (and %s) %s)", strings.Join(ranges, " "), ax)
 	}
